@@ -193,6 +193,19 @@ Theorem C14_closed_span_gone : forall c ops i busy idle,
 Proof. exact closed_span_gone. Qed.
 Print Assumptions C14_closed_span_gone.
 
+(** a `record` call that UNWINDS out of add_fields (a recorded value's Debug / Display impl panics and the caller catches it;
+    build with parking_lot, whose locks do not poison) changes nothing: add_fields builds the merged text in a fresh String
+    and assigns it only after finish() succeeded ([repo_fresh], read off the source; this statement does not compile on a
+    tree that serialises into the stored string after clearing it — which loses every field recorded so far) *)
+Theorem C14_aborted_record_changes_nothing : forall c st i,
+  spans (next c st (ORecordAborted i)) = spans st /\ stack (next c st (ORecordAborted i)) = stack st.
+Proof. exact aborted_record_changes_nothing. Qed.
+Print Assumptions C14_aborted_record_changes_nothing.
+
+Theorem C14_aborted_in_place_loses_everything : forall m, aborted_effect false m = [] /\ aborted_effect true m = m.
+Proof. exact aborted_in_place_loses_everything. Qed.
+Print Assumptions C14_aborted_in_place_loses_everything.
+
 (** which writes reach the map: all of them without the `tracing-log` feature; with it, all but `log.*` names whose
     value arrives through record_debug (documented exclusion: those names are tracing-log's own metadata) *)
 Theorem C14_effective_writes : forall c vals kv,
